@@ -23,6 +23,7 @@ ASSUMPTIONS = [
     "vf/ref/p2p_ref.py framing decoder is the specification of the wire format",
 ]
 OBLIGATIONS = {
+    "history_sequences": "operation sequences (non-initial process states) explored",
     "short_read_header": "a recv inside the 24-byte header was answered with fewer bytes than asked",
     "short_read_payload": "a recv inside the payload was answered with fewer bytes than asked",
     "eof_mid_message": "the peer closed inside a message",
@@ -345,7 +346,32 @@ CASES = {"schedule": chk_schedule, "codec": chk_codec}
 
 
 def run_case(kind, case):
+    if kind == "seq":
+        from vf import seqexplore
+        return seqexplore.replay(run_case, case)
     return CASES[kind](case)
+
+
+def seq_ops(job):
+    """receives on successive connections in one process image: a connection that dies mid-message, a corrupted one, then a
+    healthy one must still be received exactly (nothing may survive in module-level state); codecs interleaved"""
+    A = alphabet(job["seed"])
+    magic = MAGIC["mainnet"].hex()
+    good = A["ping"] + A["inv"]
+    ops = [("schedule", {"stream": good.hex(), "magic": magic, "policy": "whole"}),
+           ("schedule", {"stream": good.hex(), "magic": magic, "policy": "bytewise"})]
+    for cut in (3, 24, 30, len(A["ping"]) + 5):
+        ops.append(("schedule", {"stream": good[:cut].hex(), "magic": magic, "policy": "bytewise"}))
+    bad = bytearray(good)
+    bad[21] ^= 1
+    ops.append(("schedule", {"stream": bytes(bad).hex(), "magic": magic, "policy": "whole"}))
+    ops.append(("schedule", {"stream": (A["verack"] + A["version"]).hex(), "magic": magic, "policy": "split_before", "at": 30}))
+    ops.append(("codec", {"type": "version", "start_height": 1, "recv_port": 2, "trans_port": 3, "protocol_version": 70015, "services": 1,
+                          "relay": False, "timestamp": 5}))
+    ops.append(("codec", {"type": "version", "start_height": 1, "recv_port": 2, "trans_port": 3, "protocol_version": 60002, "services": 1,
+                          "relay": True, "timestamp": 5}))
+    ops.append(("codec", {"type": "ping", "nonce": 77}))
+    return ops
 
 
 # ---------------------------------------------------------------- jobs
@@ -365,6 +391,8 @@ def jobs(tier, seed):
         js.append({"name": f"trunc/{a}+{b}", "part": "trunc", "msgs": [a, b], "weight": 20})
     js.append({"name": "magic", "part": "magic"})
     js.append({"name": "codec", "part": "codec", "weight": 10})
+    from vf.runner import seq_jobs
+    js += seq_jobs(4, weight=4)
     return js
 
 
@@ -399,6 +427,9 @@ TIER = {"tier": "quick"}
 
 
 def run_job(job):
+    if job["part"] == "seq":
+        from vf.runner import run_seq_job
+        return run_seq_job(job, seq_ops(job), run_case)
     acc = Acc(job)
     TIER["tier"] = job["tier"]
     seed = job["seed"]
@@ -476,7 +507,7 @@ def run_job(job):
 def gen_codec(tier):
     U32 = [0, 1, 2 ** 31 - 1, 2 ** 32 - 1]
     for sh, rp, tp, pv, sv, relay in itertools.product(
-            U32, [0, 1, 8333, 65535], [0, 18444, 65535], [0, 70015, 2 ** 32 - 1], [0, 1, 0x409, 2 ** 64 - 1], [True, False]):
+            U32, [0, 1, 8333, 65535], [0, 18444, 65535], [0, 209, 60002, 70000, 70001, 70015, 2 ** 32 - 1], [0, 1, 0x409, 2 ** 64 - 1], [True, False]):
         yield {"type": "version", "start_height": sh, "recv_port": rp, "trans_port": tp, "protocol_version": pv,
                "services": sv, "relay": relay, "timestamp": 1700000000}
     for ts in (0, 1, 2 ** 32, 2 ** 63):
